@@ -588,7 +588,7 @@ func (cs *c11Case) term(o *CaseObs) (string, bool, string) {
 
 func runC11(c *Ctx) {
 	im := NewImpl("C11", c.Seed, c.Tier)
-	im.Rule = "scenarios on a real node in a child process with a well-behaved peer B and 1..4 scripted sessions: (A) admission matrix allow-list x per-node cost x cost x announced ID; (B) 12 post-establishment behaviours x cost configurations, then a newcomer under the same ID; (C) 2..3 sessions with equal/different/inadmissible IDs, every order of handshake release x every order of departure; (D) generated configurations and schedules (handshakes, direct/relayed updates, reject messages, hang-ups, other datagrams); (E) racy: 2..4 same-ID handshakes, and handshake+hang-up, released without barriers (oracle only); (F) gate race: up to 400 rounds (4 s) of 6..8 same-ID sessions whose handshakes are released at the same instant through a spin gate inside Recv, survivors proved established by a delivered packet, entry listed exactly once while one is alive and gone after the last ends; (G) late-cancel stress and same-ID meshes; (H) session endings: Recv io.EOF / Recv error / Send error / context cancelled / idle timeout x before handshake / established one-sided / both ways / data flowing: closed and gone from Connections and own row within 0.5 s (idle: limit + monitor period), from the routing table within 1 s more, same ID re-admitted at once; non-trivial = at least one handshake released; distinct by configuration and schedule"
+	im.Rule = "scenarios on a real node in a child process with a well-behaved peer B and 1..4 scripted sessions: (A) admission matrix allow-list x per-node cost x cost x announced ID; (B) 12 post-establishment behaviours x cost configurations, then a newcomer under the same ID; (C) 2..3 sessions with equal/different/inadmissible IDs, every order of handshake release x every order of departure; (D) generated configurations and schedules (handshakes, direct/relayed updates, reject messages, hang-ups, other datagrams); (E) racy: 2..4 same-ID handshakes, and handshake+hang-up, released without barriers (oracle only); (F) gate race: up to 400 rounds (4 s) of 6..8 same-ID sessions whose handshakes are released at the same instant through a spin gate inside Recv, survivors proved established by a delivered packet, entry listed exactly once while one is alive and gone after the last ends; (G) late-cancel stress and same-ID meshes; (H) session endings: Recv io.EOF / Recv error / Send error / context cancelled / idle timeout x before handshake / established one-sided / both ways / data flowing: closed and gone from Connections and own row within 0.5 s (idle: limit 2.5 s, above the 1 s receive timeout, + 5 s monitor period), from the routing table within 1 s more, same ID re-admitted at once; non-trivial = at least one handshake released; distinct by configuration and schedule"
 	cf := &CaseFile{Dir: c.Out, Prop: "C11", Imports: []string{"Model.Admit"}, CaseType: "admit_case", CheckFn: "admit_check", PerShard: 150}
 	cases := genCases(c)
 	specs := make([]CaseSpec, len(cases))
